@@ -25,40 +25,7 @@ func IsError(t types.Type) bool {
 
 // ImplementsError returns whether a value of this type can be given where an error is asked for.
 func ImplementsError(t types.Type) bool {
-	typ, ok := t.(*types.Named)
-	if !ok {
-		return false
-	}
-	if typ.Obj().Name() == "error" {
-		return true
-	}
-	for i := 0; i < typ.NumMethods(); i++ {
-		meth := typ.Method(i)
-		if meth.Name() != "Error" {
-			continue
-		}
-		sig, ok := meth.Type().(*types.Signature)
-		if !ok {
-			// impossible, but lets check anyway
-			continue
-		}
-		if sig.Params().Len() != 0 {
-			continue
-		}
-		res := sig.Results()
-		if res.Len() != 1 {
-			continue
-		}
-		b, ok := res.At(0).Type().(*types.Basic)
-		if !ok {
-			continue
-		}
-		if b.Kind() != types.String {
-			continue
-		}
-		return true
-	}
-	return false
+	return types.Implements(t, types.Universe.Lookup("error").Type().Underlying().(*types.Interface))
 }
 
 // Zero returns the zero value as a string, for a given type.
